@@ -125,8 +125,11 @@ def _sentence(rng, g, samples, max_depth):
         alts = by.get(sym.fqn, [])
         if not alts:
             return None
+        if depth < -8:
+            return None
         if depth <= 0:
-            alts = sorted(alts, key=lambda p: len(p.rhs))[:1]
+            flat = [p for p in alts if all(x.fqn in g.terminals for x in list.__iter__(p.rhs))]
+            alts = flat or sorted(alts, key=lambda p: len(p.rhs))[:1]
         p = rng.choice(alts)
         out = []
         for s in list.__iter__(p.rhs):
@@ -382,7 +385,7 @@ def gen_jobs(ctx):
     for name, text, samples, junk, delim in RICH:
         alpha = sorted(set(gramgen.alphabet_of(text)) | set("".join(v for vs in samples.values() for v in vs)))
         alpha = [a for a in alpha if a.strip()] or ["a"]
-        reps = 5 if quick else 40
+        reps = 7 if quick else 40
         for k in range(reps):
             short = [s for s in gramgen.all_strings(alpha[:3] + [junk[0], " "], 2 if quick else 3)] if k == 0 else []
             jobs.append(("%s#%d" % (name, k), text,
@@ -407,7 +410,7 @@ def gen_jobs(ctx):
         jobs.append((name, text, {"inputs": base, "alphabet": "".join(alpha), "junk": "x", "delim": alpha[0],
                                   "nsent": 4 if quick else 12, "ncorrupt": 3, "combos": COMBOS[:3]},
                      rng.randrange(1 << 30)))
-    nrand = 160 if quick else 2500
+    nrand = 220 if quick else 2500
     for i in range(nrand):
         big = i % 3 == 0
         r = gramgen.random_grammar(rng, max_nt=4 if big else 3, max_alts=3, max_rhs=3,
@@ -603,6 +606,9 @@ def run(ctx):
                             if len(samples) < 4 and len(spans) > 1 and sname == "default":
                                 samples.append({"grammar": r["gtext"], "options": combo, "input": w,
                                                 "errors": spans, "tree": res["tree"]})
+                        if sname == "default" and any(a >= b for a, b in spans):
+                            ctx.violation("LR default recovery: a recorded (recovered) error has an empty span %r"
+                                          % spans, rep, key="lr-empty-span")
                         if outs[res["_spans"]] != 1 or not py_spans_ok(spans, n):
                             ctx.violation("reported error spans %r are not in bounds / start<=end / ordered / "
                                           "disjoint (input length %d)" % (spans, n), rep, key="lr-spans-" + sname)
@@ -725,6 +731,10 @@ def run(ctx):
                         st["glr_recovered_results"] += 1
                         distinct.add((r["gtext"], "glr", sname, w))
                     bad_spans = outs[res["_spans"]] != 1 or not py_spans_ok(spans, n)
+                    if sname == "default" and any(a >= b for a, b in spans):
+                        # C11_progress: a successful default recovery strictly advances the head
+                        ctx.violation("GLR default recovery: a recorded (recovered) error has an empty span %r"
+                                      % spans, rep, key="glr-empty-span")
                     bad_tree = False
                     for t, ti in zip(res.get("trees", []), res.get("_treeok", [])):
                         st["glr_trees_certified"] += 1
